@@ -221,7 +221,9 @@ def run(ctx, report: Report) -> None:
                     stmts = list(n.body) + list(n.orelse)
                     todo = list(stmts)
                     bad = []
-                    READ_CALLS = ('group', 'start', 'end', 'format', 'join', 'repr', 'str', 'len')
+                    READ_CALLS = ('group', 'start', 'end', 'format', 'join', 'repr', 'str', 'len', 'zip', 'enumerate', 'sorted', 'reversed',
+                                  'range', 'items', 'keys', 'values', 'bool', 'int', 'hex', 'get', 'lower', 'upper', 'type', 'isinstance',
+                                  'tuple', 'list', 'dict', 'groupdict', 'span', '_asdict', 'ljust', 'rjust', 'strip')
 
                     def pure(e):
                         return not any(isinstance(x, (ast.NamedExpr, ast.Yield, ast.YieldFrom, ast.Await)) or (
@@ -229,7 +231,33 @@ def run(ctx, report: Report) -> None:
                     # names bound inside the block must stay inside it
                     inside = {id(x) for st in stmts for x in ast.walk(st)}
                     bound = {x.id for st in stmts for x in ast.walk(st) if isinstance(x, ast.Name) and isinstance(x.ctx, ast.Store)}
-                    leaks = {x.id for x in ast.walk(fn) if isinstance(x, ast.Name) and x.id in bound and id(x) not in inside}
+
+                    def rebound_outside(x):
+                        """Is this use of a name (outside the debug block) fed by a binding that is itself outside the block:
+                        the target of an enclosing loop / comprehension, or an unconditional assignment earlier in an enclosing
+                        statement list that comes after the debug block?"""
+                        cur = x
+                        while cur is not None and cur is not fn:
+                            par = mod.parents.get(cur)
+                            if isinstance(par, ast.For) and cur in par.body and any(
+                                    isinstance(t_, ast.Name) and t_.id == x.id for t_ in ast.walk(par.target)):
+                                return True
+                            if isinstance(par, (ast.ListComp, ast.SetComp, ast.GeneratorExp, ast.DictComp)) and any(
+                                    isinstance(t_, ast.Name) and t_.id == x.id for g_ in par.generators for t_ in ast.walk(g_.target)):
+                                return True
+                            if isinstance(cur, ast.stmt):
+                                for fld in ('body', 'orelse', 'finalbody'):
+                                    blk = getattr(par, fld, None)
+                                    if isinstance(blk, list) and cur in blk:
+                                        for prev in reversed(blk[:blk.index(cur)]):
+                                            if prev is n or any(y is n for y in ast.walk(prev)):
+                                                return False
+                                            if isinstance(prev, ast.Assign) and any(isinstance(t_, ast.Name) and t_.id == x.id for t_ in prev.targets):
+                                                return True
+                            cur = par
+                        return False
+                    leaks = {x.id for x in ast.walk(fn) if isinstance(x, ast.Name) and x.id in bound and id(x) not in inside
+                             and not (isinstance(x.ctx, ast.Store) or rebound_outside(x))}
                     while todo:
                         st = todo.pop()
                         if isinstance(st, ast.If):
@@ -242,7 +270,7 @@ def run(ctx, report: Report) -> None:
                             tn = [x for x in ast.walk(st.target) if isinstance(x, ast.expr)]
                             if not pure(st.iter) or not all(isinstance(x, (ast.Name, ast.Tuple, ast.List)) for x in tn) \
                                     or any(isinstance(x, ast.Name) and x.id in leaks for x in tn) \
-                                    or not isinstance(st.iter, (ast.Tuple, ast.List, ast.Name, ast.Attribute)):
+                                    or not isinstance(st.iter, (ast.Tuple, ast.List, ast.Name, ast.Attribute, ast.Call, ast.Subscript)):
                                 bad.append(st)
                             todo.extend(st.body + st.orelse)
                         elif isinstance(st, ast.Assign) and all(isinstance(t, ast.Name) and t.id not in leaks for t in st.targets) \
